@@ -269,7 +269,7 @@ def generate(cfg="A", builddir=None, outpath=None):
 
     L = []
     A = L.append
-    A("/- GENERATED by translate/extract.py from %s (configuration %s). Do not edit. -/" % (REPO, cfg))
+    A("/- GENERATED by translate/extract.py from the current source tree (configuration %s). Do not edit. -/" % cfg)
     if failed:
         A("/- sections that could not be extracted (empty / zero below): %s -/" % ", ".join(sorted(failed)))
     A("namespace ScpiVerif.Gen\n")
